@@ -41,6 +41,8 @@ def shape(f):
             c = t.get("callee")
             name = norm(callee_id(c)[0]) if c else "<indirect>"
             gargs = tuple(norm(a) for a in (c.get("args") or ())) if c else ()
+            if name in CALLEE_EQUIV:
+                gargs = ()
             consts = tuple(sorted(_consts(t.get("args", []))))
             out.append((k, name, gargs, consts, t.get("target")))
         elif k == "switch":
@@ -73,11 +75,12 @@ def _consts(ops):
     return out
 
 
-# confirmed-by-reading resolution differences between the two builds (function key -> reason)
-FROZEN = {
-    "helpers::pairing_g1_g2": "final_exponentiation is a trait method (pairing_lib::MillerLoopResult) in blstrs_plus and an inherent method in bls12_381_plus",
-    "helpers::pairing_g2_g1": "final_exponentiation is a trait method (pairing_lib::MillerLoopResult) in blstrs_plus and an inherent method in bls12_381_plus",
+# confirmed-by-reading resolution differences between the two builds (callee -> reason): the generic-argument list of
+# these callees is ignored in the comparison, wherever the call is made
+CALLEE_EQUIV = {
+    "MillerLoopResult::final_exponentiation": "final_exponentiation is a trait method (pairing_lib::MillerLoopResult, Self generic) in blstrs_plus and an inherent method of the type MillerLoopResult in bls12_381_plus",
 }
+FROZEN = {}
 
 
 def run(ctx):
